@@ -437,6 +437,100 @@ func TestC20(t *testing.T) {
 				}
 			}
 		})
+		// every built-in with no argument, with each single argument producer and with each producer twice:
+		// one session per built-in, forwards and backwards; whatever a call does the session goes on, and a
+		// line's answer does not depend on what came before it
+		c.Sub("builtin-misuse-sessions", func(s *Sub) {
+			var k int64
+			for _, b := range bn.Builtins {
+				k++
+				if !c.Mine(k) || b == bn.BInput || b == bn.BClock {
+					continue
+				}
+				lines := []string{b + "();"}
+				for _, a := range c17Args {
+					lines = append(lines, b+"("+a.text+");", bn.KwPrint+" "+b+"("+a.text+", "+a.text+");")
+				}
+				rev := make([]string, len(lines))
+				for i, l := range lines {
+					rev[len(lines)-1-i] = l
+				}
+				pf, st1, raw1, ok1 := c.c20Session(lines, true)
+				pb, st2, raw2, ok2 := c.c20Session(rev, true)
+				c.Ev.EnumCase("builtin-misuse-sessions", true, func() string { return strings.Join(lines, "\n") }, "builtin "+b)
+				fail := func(sig, msg, raw string) {
+					s.Violation(Replay{Check: "builtin-session", Sig: sig, Source: strings.Join(lines, "\n"), Note: msg, Observed: fmt.Sprintf("output=%q", clip(raw[max(0, len(raw)-700):], 700))})
+				}
+				if !ok1 || st1 != 0 || len(pf) != len(lines)+2 {
+					fail("forward", fmt.Sprintf("session of %d lines calling %s: status %d, %d prompts (expected status 0 and %d prompts)", len(lines), b, st1, len(pf)-1, len(lines)+1), raw1)
+					continue
+				}
+				if !ok2 || st2 != 0 || len(pb) != len(lines)+2 {
+					fail("backward", fmt.Sprintf("reversed session of %d lines calling %s: status %d, %d prompts", len(lines), b, st2, len(pb)-1), raw2)
+					continue
+				}
+				for i, l := range lines {
+					if pf[i+1] != pb[len(lines)-i] {
+						fail("order-dependent", fmt.Sprintf("line %q answered %q in one session and %q in the reversed one", l, pf[i+1], pb[len(lines)-i]), raw1)
+						break
+					}
+				}
+			}
+			c.Ev.MarkExhaustive(fmt.Sprintf("15 built-ins x (no argument, %d single arguments, %d doubled arguments), each as one session forwards and one backwards", len(c17Args), len(c17Args)))
+		})
+		// lines that call a built-in with arbitrary arguments (mostly misuse): whatever the call does, the
+		// session goes on and every line is answered as in a fresh session
+		nb := 60
+		if c.Thorough {
+			nb = 1500
+		}
+		c.Rapid("builtin-call-lines", nb, func(rt *rapid.T, s *Sub) {
+			k := rapid.IntRange(2, 6).Draw(rt, "len")
+			var lines []string
+			for i := 0; i < k; i++ {
+				b := rapid.SampledFrom(bn.Builtins).Draw(rt, "builtin")
+				if b == bn.BInput || b == bn.BClock {
+					b = bn.BMax
+				}
+				na := rapid.IntRange(0, 3).Draw(rt, "argc")
+				var args []string
+				for j := 0; j < na; j++ {
+					args = append(args, rapid.SampledFrom(c17Args).Draw(rt, "arg").text)
+				}
+				call := b + "(" + strings.Join(args, ", ") + ")"
+				if rapid.Bool().Draw(rt, "print") {
+					lines = append(lines, bn.KwPrint+" "+call+";")
+				} else {
+					lines = append(lines, call+";")
+				}
+			}
+			lines = append(lines, bn.KwPrint+" \"still here\";")
+			desc := strings.Join(lines, "\n")
+			c.Ev.Case("builtin-call-lines", desc, true, "builtin-lines")
+			parts, status, raw, ok := c.c20Session(lines, true)
+			fail := func(sig, msg string) {
+				s.Violation(Replay{Check: "builtin-session", Sig: sig, Source: desc, Note: msg, Observed: fmt.Sprintf("status=%d output=%q", status, clip(raw, 800))})
+			}
+			if !ok || status != 0 {
+				fail("status", "the session must go on to the end of input and end with status 0")
+				return
+			}
+			if len(parts) != len(lines)+2 {
+				fail("prompts", fmt.Sprintf("expected %d prompts, output splits into %d pieces", len(lines)+1, len(parts)-1))
+				return
+			}
+			if parts[len(lines)] != "still here\n" {
+				fail("last-line", fmt.Sprintf("the last line answered %q", parts[len(lines)]))
+			}
+			for i, l := range lines {
+				if w, known := freshText[l]; known && parts[i+1] != w {
+					fail("response", fmt.Sprintf("line %d (%q) answered %q, earlier in a fresh session %q", i+1, l, parts[i+1], w))
+				}
+				if i == 0 {
+					freshText[l] = parts[1]
+				}
+			}
+		})
 		n := 300
 		if c.Thorough {
 			n = 2500
